@@ -13,7 +13,12 @@ def run_both(res, cases, tag, model_ok, release=False, timeout=900):
     wv = core.WV_RELEASE if release else core.WV_DEBUG
     impl = core.run_cases(wv, lines, tag + "i", timeout=timeout)
     if model_ok:
-        model = core.run_cases(core.MODEL_RUN_RELEASE if release else core.MODEL_RUN, lines, tag + "m", timeout=timeout)
+        # cases marked `nomodel` (too large for the extracted model within the time limit) are decided by the oracle alone
+        idx = [i for i, c in enumerate(cases) if not c.get("nomodel")]
+        mout = core.run_cases(core.MODEL_RUN_RELEASE if release else core.MODEL_RUN, [lines[i] for i in idx], tag + "m", timeout=timeout)
+        model = [None] * len(lines)
+        for i, o in zip(idx, mout):
+            model[i] = o
     else:
         model = [None] * len(lines)
     for c, io, mo in zip(cases, impl, model):
